@@ -212,6 +212,8 @@ def _enc_end(name, data, a):
 
 def c01_direct(scripts, cache_vals, cfg):
     """the property's own statement evaluated on a traced real run; returns list of violation texts"""
+    import copy
+    cache_vals = copy.deepcopy(cache_vals)
     log = tsh.Log()
     tsh.Pins.ridx = 0
     tsh.Pins.now = cfg.now
